@@ -69,6 +69,7 @@ def run(ctx):
     games += gen_games.pattern_games3(3)      # initial states whose value is tiny but positive
     games += gen_games.mixed_games(ctx.rng, 250 if ctx.quick else 5000, 3, 9, styles=("stopping", "exact"))
     games += unsolvable_starts(ctx, 60 if ctx.quick else 800)
+    games += gen_games.extra_families(ctx.rng, games, 12 if ctx.quick else 150)
     recs = sc.run_games(ctx, games, limit=20, tag="c06")
     sc.correspondence(ctx, recs, "cmp_shape", "c06")
     check(ctx, recs)
